@@ -710,6 +710,7 @@ main(int argc, char **argv) {
   drv_init(argc, argv);
   if (!kcfg_parse(&cfg, drv_opt("cfg", "B1")))
     vh_die("bad --cfg");
+  vfs_default_rlimit = drv_opt_long("rlimit", 1024);   /* 5 => lcdb's fd limiter allows ONE open table descriptor */
   default_universe = (int)drv_opt_long("universe", 0);
   kv_set_universe(default_universe);
   alph = drv_opt("alphabet", "rw");
